@@ -251,3 +251,191 @@ Proof.
   split; intros c Hc; simpl in Hc;
     repeat (destruct Hc as [<-|Hc]; [vm_compute; reflexivity|]); contradiction.
 Qed.
+
+Lemma NoDup_app_intro2 {A} (l1 l2 : list A) :
+  NoDup l1 -> NoDup l2 -> (forall x, In x l1 -> In x l2 -> False) -> NoDup (l1 ++ l2).
+Proof.
+  intros H1 H2 H. induction H1 as [|a t Ha Ht IH]; simpl; auto.
+  constructor.
+  - rewrite in_app_iff. intros [X|X]; [contradiction|]. apply (H a); simpl; auto.
+  - apply IH. intros x Hx. apply H. simpl. auto.
+Qed.
+
+(* ---- well-formedness is preserved, so chains need no side condition beyond "no label listed twice" --- *)
+Lemma gather_NoDup L ps :
+  NoDup L -> NoDup ps -> Forall (fun p => p < length L) ps -> NoDup (gather 0%Z ps L).
+Proof.
+  intros HL Hps Hr. unfold gather. induction Hps as [|p t Hnin Hnd IH]; simpl; constructor.
+  - inversion Hr as [|? ? Hp Ht]; subst. rewrite in_map_iff. intros [q [E Hq]].
+    rewrite Forall_forall in Ht. specialize (Ht q Hq).
+    assert (p = q).
+    { apply (proj1 (NoDup_nth L 0%Z) HL); auto. }
+    subst. contradiction.
+  - apply IH. inversion Hr; assumption.
+Qed.
+
+Lemma select_wf rp cp d :
+  wf d -> NoDup rp -> NoDup cp ->
+  Forall (fun p => p < length (alts d)) rp -> Forall (fun p => p < length (crits d)) cp ->
+  wf (select rp cp d).
+Proof.
+  intros [Hna [Hnc [Hrows [Hrect [Ho [Hw Hd]]]]]] Nr Nc Rr Rc.
+  unfold wf. cbn [alts crits cells objs wts dts select].
+  repeat split.
+  - apply gather_NoDup; auto.
+  - apply gather_NoDup; auto.
+  - rewrite map_length, !gather_length. reflexivity.
+  - apply Forall_forall. intros r Hr. apply in_map_iff in Hr. destruct Hr as [r0 [<- _]].
+    rewrite !gather_length. reflexivity.
+  - rewrite !gather_length. reflexivity.
+  - rewrite !gather_length. reflexivity.
+  - rewrite !gather_length. reflexivity.
+Qed.
+
+(* positions produced by slices, masks and "all" never repeat; explicit lists repeat only if the
+   caller repeats a label / position *)
+Lemma mask_pos_NoDup bs k : NoDup (mask_pos k bs).
+Proof.
+  assert (G : forall bs k, NoDup (mask_pos k bs) /\ Forall (fun p => k <= p) (mask_pos k bs)).
+  { clear. induction bs as [|b t IH]; intros k; simpl; [split; constructor|].
+    destruct (IH (S k)) as [N F].
+    assert (F' : Forall (fun p => k <= p) (mask_pos (S k) t)) by (eapply Forall_impl; [|exact F]; simpl; intros; lia).
+    destruct b; [|split; assumption]. split; [|constructor; auto].
+    constructor; auto. intros Hin. rewrite Forall_forall in F. specialize (F k Hin). lia. }
+  apply G.
+Qed.
+
+(* for bounds as Python's slice.indices produces them: start >= 0 when stepping up, stop >= -1 when stepping down *)
+Lemma range_pos_NoDup fuel cur stop step :
+  ((0 < step)%Z -> (0 <= cur)%Z) -> ((step < 0)%Z -> (-1 <= stop)%Z) ->
+  NoDup (range_pos fuel cur stop step).
+Proof.
+  assert (G : forall fuel cur stop step,
+            ((0 < step)%Z -> (0 <= cur)%Z) -> ((step < 0)%Z -> (-1 <= stop)%Z) ->
+            NoDup (range_pos fuel cur stop step) /\
+            ((0 < step)%Z -> Forall (fun p => (cur <= Z.of_nat p)%Z) (range_pos fuel cur stop step)) /\
+            ((step < 0)%Z -> Forall (fun p => (Z.of_nat p <= cur)%Z) (range_pos fuel cur stop step))).
+  { clear. induction fuel as [|f IH]; intros cur stop step H1 H2; simpl.
+    - repeat split; constructor.
+    - destruct (Z.ltb_spec 0 step) as [Hs|Hs].
+      + destruct (Z.ltb_spec cur stop) as [Hlt|Hge]; [|repeat split; constructor].
+        specialize (H1 Hs).
+        destruct (IH (cur + step)%Z stop step ltac:(lia) ltac:(lia)) as [N [F1 _]]. specialize (F1 Hs).
+        repeat split.
+        * constructor; auto. intros Hin. rewrite Forall_forall in F1. specialize (F1 _ Hin). lia.
+        * intros _. constructor; [lia|]. eapply Forall_impl; [|exact F1]. simpl. intros; lia.
+        * intros; lia.
+      + destruct (Z.ltb_spec step 0) as [Hn|Hz]; [|repeat split; constructor].
+        destruct (Z.ltb_spec stop cur) as [Hlt|Hge]; [|repeat split; constructor].
+        specialize (H2 Hn).
+        destruct (IH (cur + step)%Z stop step ltac:(lia) ltac:(lia)) as [N [_ F2]]. specialize (F2 Hn).
+        repeat split.
+        * constructor; auto. intros Hin. rewrite Forall_forall in F2. specialize (F2 _ Hin). lia.
+        * intros; lia.
+        * intros _. constructor; [lia|]. eapply Forall_impl; [|exact F2]. simpl. intros; lia. }
+  intros H1 H2. apply G; assumption.
+Qed.
+
+Lemma rev_NoDup {A} (l : list A) : NoDup l -> NoDup (rev l).
+Proof.
+  induction 1 as [|a t Ha Ht IH]; simpl; [constructor|].
+  apply NoDup_app_intro2; auto.
+  - constructor; [simpl; tauto|constructor].
+  - intros x Hx [<-|[]]. apply Ha. apply in_rev. exact Hx.
+Qed.
+
+Lemma nodupZ_NoDup l : nodupZ l = true -> NoDup l.
+Proof.
+  induction l as [|x t IH]; simpl; intros H; [constructor|].
+  apply andb_true_iff in H. destruct H as [H1 H2]. constructor; auto.
+  intros Hin. apply negb_true_iff in H1.
+  assert (existsb (Z.eqb x) t = true) by (apply existsb_exists; exists x; split; auto; apply Z.eqb_refl).
+  congruence.
+Qed.
+Lemma nodupN_NoDup l : nodupN l = true -> NoDup l.
+Proof.
+  induction l as [|x t IH]; simpl; intros H; [constructor|].
+  apply andb_true_iff in H. destruct H as [H1 H2]. constructor; auto.
+  intros Hin. apply negb_true_iff in H1.
+  assert (existsb (Nat.eqb x) t = true) by (apply existsb_exists; exists x; split; auto; apply Nat.eqb_refl).
+  congruence.
+Qed.
+
+Lemma mapM_index_NoDup labels ls ps :
+  NoDup ls -> mapM_opt (fun l => index_of l labels) ls = Some ps -> NoDup ps.
+Proof.
+  intros Hnd. revert ps. induction Hnd as [|l t Hnin Hnd IH]; simpl; intros ps H.
+  - injection H as <-. constructor.
+  - destruct (index_of l labels) as [k|] eqn:E; [|discriminate].
+    destruct (mapM_opt _ t) as [ks|] eqn:E2; [|discriminate]. injection H as <-.
+    constructor; [|apply IH; reflexivity].
+    intros Hin.
+    (* some l' in t has the same index, hence is the same label *)
+    assert (G : forall t ks, mapM_opt (fun l => index_of l labels) t = Some ks -> In k ks ->
+                exists l', In l' t /\ index_of l' labels = Some k).
+    { clear. induction t as [|a t IH]; simpl; intros ks H Hin.
+      - injection H as <-. contradiction.
+      - destruct (index_of a labels) as [j|] eqn:Ea; [|discriminate].
+        destruct (mapM_opt _ t) as [js|] eqn:Et; [|discriminate]. injection H as <-.
+        destruct Hin as [->|Hin]; [exists a; auto|].
+        destruct (IH js eq_refl Hin) as [l' [H1 H2]]. exists l'. auto. }
+    destruct (G t ks E2 Hin) as [l' [Hl' El']].
+    apply index_of_Some in E. apply index_of_Some in El'. destruct E as [_ E]. destruct El' as [_ El'].
+    assert (l = l') by congruence. subst. contradiction.
+Qed.
+
+Theorem resolve_NoDup labels s ps :
+  sel_ok s = true -> resolve labels s = Ok ps -> NoDup ps.
+Proof.
+  destruct s as [|ls|a b rv|qs|a b st|bs]; unfold resolve, sel_ok; intros Hok H.
+  - injection H as <-. apply seq_NoDup.
+  - destruct (mapM_opt _ ls) as [qs|] eqn:E; [|discriminate]. injection H as <-.
+    eapply mapM_index_NoDup; eauto. apply nodupZ_NoDup. exact Hok.
+  - destruct (index_of a labels) as [i|]; [|discriminate]. destruct (index_of b labels) as [j|]; [|discriminate].
+    destruct rv; injection H as <-; [apply rev_NoDup|]; apply seq_NoDup.
+  - destruct (forallb _ qs); [|discriminate]. injection H as <-. apply nodupN_NoDup. exact Hok.
+  - destruct (forallb _ _); [|discriminate]. injection H as <-.
+    apply andb_true_iff in Hok. destruct Hok as [H1 H2].
+    apply orb_true_iff in H1. apply orb_true_iff in H2.
+    match goal with |- NoDup ?x => change x with (range_pos (S (length labels)) a b st) end.
+    apply range_pos_NoDup; intros Hs.
+    + destruct H1 as [H1|H1]; [apply Z.leb_le in H1; lia|apply Z.leb_le in H1; exact H1].
+    + destruct H2 as [H2|H2]; [apply Z.leb_le in H2; lia|apply Z.leb_le in H2; exact H2].
+  - destruct (Nat.eqb_spec (length bs) (length labels)); [|discriminate]. injection H as <-. apply mask_pos_NoDup.
+Qed.
+
+Theorem apply_op_wf o d d' : wf d -> op_ok o = true -> apply_op o d = Ok d' -> wf d'.
+Proof.
+  intros Hwf Hok. destruct o as [rs cs| |]; simpl in *.
+  - destruct (resolve (alts d) rs) as [rp|e] eqn:Er; [|discriminate].
+    destruct (resolve (crits d) cs) as [cp|e] eqn:Ec; [|discriminate].
+    intros [= <-]. apply andb_true_iff in Hok. destruct Hok as [O1 O2].
+    apply select_wf; auto.
+    + eapply resolve_NoDup; [exact O1|exact Er].
+    + eapply resolve_NoDup; [exact O2|exact Ec].
+    + eapply resolve_in_range; exact Er.
+    + eapply resolve_in_range; exact Ec.
+  - intros [= <-]. exact Hwf.
+  - intros [= <-]. exact Hwf.
+Qed.
+
+Lemma run_ops_run_wf ops d d' :
+  wf d -> forallb op_ok ops = true -> run_ops ops d = Ok d' -> run_wf ops d d' /\ wf d'.
+Proof.
+  revert d. induction ops as [|o t IH]; intros d Hwf Hok H; simpl in *.
+  - injection H as <-. split; [constructor|]; exact Hwf.
+  - apply andb_true_iff in Hok. destruct Hok as [Ho Ht].
+    destruct (apply_op o d) as [d1|e] eqn:E; [|discriminate].
+    pose proof (apply_op_wf o d d1 Hwf Ho E) as Hwf1.
+    destruct (IH d1 Hwf1 Ht H) as [R W]. split; auto.
+    econstructor; eauto.
+Qed.
+
+(* THE chain theorem, directly about run_ops: any finite chain of selections, copies and round trips in
+   which nothing is listed twice keeps every criterion's own objective, weight, dtype and cells *)
+Theorem run_ops_aligned ops d d' :
+  wf d -> forallb op_ok ops = true -> run_ops ops d = Ok d' -> aligned d d' /\ wf d'.
+Proof.
+  intros Hwf Hok H. destruct (run_ops_run_wf ops d d' Hwf Hok H) as [R W]. split; auto.
+  apply run_aligned with (ops := ops). exact R.
+Qed.
